@@ -99,6 +99,31 @@ pub fn run(em: &mut Emitter, rng: &mut Rng, thorough: bool) {
                 if obs == w.as_slice() { Oracle::Pass } else { Oracle::Fail("absence-consumed-something".into()) }
             }, true);
         }
+        // after the end of a parent has been observed (an untagged optional read reported absence -
+        // inside an indefinite value that consumed its end-of-contents), tag-selective reads for
+        // the tag of the parent's NEXT SIBLING must still report absence and leave the sibling alone
+        if ctx != Ctx::Top {
+            let (scls, snum) = random_tag(rng);
+            let sib = Node::Prim { cls: scls, num: snum, content: vec![0xff] };
+            let sib_enc = encode_forest(&[sib], mode, &mut None);
+            let mut d2 = data.clone(); d2.extend_from_slice(&sib_enc);
+            let sib_t = match ref_parse_seq(mode, &sib_enc, Ctx::Top, 0) { Some((v, _)) if v.len() == 1 => v[0].clone(), _ => continue };
+            let mut inner_ps: Vec<Prog> = (0..ts.len()).map(|_| Prog::Take { opt: false, kind: 0, exp: None, body: Body::Generic }).collect();
+            inner_ps.push(Prog::Take { opt: true, kind: 0, exp: None, body: Body::Generic });
+            for kind in 0..3u8 { inner_ps.push(Prog::Take { opt: true, kind, exp: Some((scls, snum)), body: Body::Generic }); }
+            inner_ps.push(Prog::Take { opt: true, kind: 1, exp: Some((scls, snum)), body: Body::Typed(10) });
+            let ps = vec![Prog::Take { opt: false, kind: 2, exp: Some((0, 16)), body: Body::Prog(inner_ps) },
+                          Prog::Take { opt: true, kind: 0, exp: None, body: Body::Generic }, Prog::ReadAll];
+            let ts3 = ts.clone();
+            prog_case(em, 901, mode, &ps, &d2, move |obs| {
+                let mut w: Vec<i128> = vec![0, 0, 1, 1, 0x30];
+                for t in &ts3 { w.push(1); push_generic(t, &mut w); }
+                w.extend_from_slice(&[0, 0, 0, 0, 0]);
+                w.push(1); push_generic(&sib_t, &mut w);
+                w.push(0);
+                if obs == w.as_slice() { Oracle::Pass } else { Oracle::Fail("absence-after-end-of-parent-touched-the-sibling".into()) }
+            }, true);
+        }
         // typed optional reads (take_opt_bool, take_opt_u8 ... = take_opt_primitive_if + accessor)
         for (exp, ty) in [((0u8, 1u32), 10u8), ((0, 2), 5), ((0, 2), 2), ((0, 5), 11), ((0, 6), 12)] {
             let j = rng.below(ts.len() as u64 + 1) as usize;
